@@ -103,3 +103,84 @@ Proof.
   unfold callreq_ok, span_ok, u_ok, str8_ok, kvs8_ok, str8_ok; cbn.
   repeat split; try (vm_compute; congruence); try constructor; cbn; repeat split; try (vm_compute; congruence); constructor.
 Qed.
+
+(* ======================================================================================
+   call req / call res INCLUDING the fragment part (checksum type, checksum, arg1~2 arg2~2
+   arg3~2), for calls that fit one fragment.
+
+   Vocabulary: Spec/ProtocolCall.v [s_callreq_full], [s_callres_full], [s_csum_input] (the
+   independent encoder of the complete payload, literals only); Model/CallWire.v
+   [call_frames mt mtc id body kind ops] = the frames reqResWriter puts on the wire:
+   newFragment (flags placeholder, message header [body], checksum type, checksum
+   placeholder) leaving [frag_capacity] bytes for chunks, the fragmenting writer of
+   Model/Frag.v (property C01) run on the script [ops], finish + flushFragment laid out by
+   Model/FragWire.v [enc_frag_payload], Frame.WriteOut;
+   [fits_one cap a1 a2 a3] = (2+|a1|) + (2+|a2|) + (2+|a3|) <= cap and
+   (2+|a1|) + (2+|a2|) + 2 < cap (after arg2 more than a chunk header is left: with an empty
+   arg3 and an exact fit the writer opens a second fragment, CallLayoutP.writer_exact_fit_two);
+   [kind_ok kind] = checksum kind 0 (none), 1 (crc32), 3 (crc32c);
+   [csum_value kind data] = the CRC-32 (IEEE / Castagnoli) of [data] from scratch.
+   ====================================================================================== *)
+From Verif Require Import Model.Crc Model.Frag Model.FragWire Model.CallWire Spec.ProtocolCall Spec.FragOk
+  Proofs.FragWireP Proofs.FragRoundtrip Proofs.CallLayoutP.
+
+(* newFragment leaves exactly frag_capacity = 65519 - (1 + |message header| + 1 + checksum size)
+   bytes for chunks (the capacity used in C01_frame_bytes) *)
+Theorem C06_fragment_capacity : forall body hdr ck,
+  writes body hdr -> 0 <= ck_typecode ck < 256 -> 0 <= frag_capacity hdr ck ->
+  new_fragment body ck = Some (hdr, frag_capacity hdr ck).
+Proof. exact new_fragment_ok. Qed.
+
+(* for every well-formed call req header, every checksum kind and every three arguments that
+   fit the first fragment: exactly ONE frame, of type 0x03, whose payload is the specified
+   flags:1(=0) ttl:4 tracing:25 service~1 nh:1 (hk~1 hv~1){nh} csumtype:1 (csum:4){0,1}
+   arg1~2 arg2~2 arg3~2 with csum = CRC of arg1 ++ arg2 ++ arg3, and at most 65535 bytes *)
+Theorem C06_layout_callreq_full : forall m ttl_ms kind id a1 a2 a3,
+  callreq_ok m ttl_ms -> kind_ok kind ->
+  fits_one (frag_capacity (s_callreq ttl_ms (spec_span (cq_span m)) (cq_service m) (cq_headers m)) (ck_fresh kind)) a1 a2 a3 ->
+  let payload := s_callreq_full 0 ttl_ms (spec_span (cq_span m)) (cq_service m) (cq_headers m)
+                   kind (csum_value kind (s_csum_input a1 a2 a3)) a1 a2 a3 in
+  call_frames c_messageTypeCallReq c_messageTypeCallReqContinue id (w_callreq m) kind
+              (script3 [IWrite a1] [IWrite a2] [IWrite a3])
+    = Some [s_frame t_call_req id payload] /\
+  zlen (s_frame t_call_req id payload) <= 65535.
+Proof. exact callreq_single_layout. Qed.
+
+(* the same for call res: flags:1(=0) code:1 tracing:25 nh:1 (hk~1 hv~1){nh} csumtype:1
+   (csum:4){0,1} arg1~2 arg2~2 arg3~2, one frame of type 0x04 *)
+Theorem C06_layout_callres_full : forall m kind id a1 a2 a3,
+  callres_ok m -> kind_ok kind ->
+  fits_one (frag_capacity (s_callres (cs_code m) (spec_span (cs_span m)) (cs_headers m)) (ck_fresh kind)) a1 a2 a3 ->
+  let payload := s_callres_full 0 (cs_code m) (spec_span (cs_span m)) (cs_headers m)
+                   kind (csum_value kind (s_csum_input a1 a2 a3)) a1 a2 a3 in
+  call_frames c_messageTypeCallRes c_messageTypeCallResContinue id (w_callres m) kind
+              (script3 [IWrite a1] [IWrite a2] [IWrite a3])
+    = Some [s_frame t_call_res id payload] /\
+  zlen (s_frame t_call_res id payload) <= 65535.
+Proof. exact callres_single_layout. Qed.
+
+(* the checksum field: absent for kind 0, else the big-endian CRC from seed 0 *)
+Theorem C06_csum_field : forall data,
+  s_csum 0 (csum_value 0 data) = [] /\
+  s_csum 1 (csum_value 1 data) = be 4 (crc32_update poly_ieee 0 data) /\
+  s_csum 3 (csum_value 3 data) = be 4 (crc32_update poly_castagnoli 0 data).
+Proof. exact (fun data => conj eq_refl (conj eq_refl eq_refl)). Qed.
+
+Print Assumptions C06_fragment_capacity.
+Print Assumptions C06_layout_callreq_full.
+Print Assumptions C06_layout_callres_full.
+Print Assumptions C06_csum_field.
+
+(* non-vacuity: the call request of C06_example with arguments "123" "456" "789" and crc32:
+   the hypotheses hold and the model emits the frame below; its checksum field cb f4 39 26 is
+   the standard CRC-32 check value of "123456789" *)
+Example C06_example_call :
+  let m := mkCallReq (1500 * ms_ns) (mkSpan 1 2 3 1) [115; 118; 99] [([97; 115], [114; 97; 119])] in
+  let a1 := [49; 50; 51] in let a2 := [52; 53; 54] in let a3 := [55; 56; 57] in
+  fits_one (frag_capacity (s_callreq 1500 (spec_span (cq_span m)) (cq_service m) (cq_headers m)) (ck_fresh 1)) a1 a2 a3 /\
+  call_frames c_messageTypeCallReq c_messageTypeCallReqContinue 7 (w_callreq m) 1
+              (script3 [IWrite a1] [IWrite a2] [IWrite a3]) =
+  Some [[0;78; 3; 0; 0;0;0;7; 0;0;0;0;0;0;0;0;
+         0; 0;0;5;220; 0;0;0;0;0;0;0;1; 0;0;0;0;0;0;0;2; 0;0;0;0;0;0;0;3; 1; 3;115;118;99; 1; 2;97;115; 3;114;97;119;
+         1; 203;244;57;38; 0;3;49;50;51; 0;3;52;53;54; 0;3;55;56;57]].
+Proof. cbv zeta. split; [unfold fits_one; vm_compute; split; [discriminate|reflexivity]|vm_compute; reflexivity]. Qed.
